@@ -492,7 +492,7 @@ func cmdCommit(ss *serverSession) {
 }
 
 func cmdConnections(ss *serverSession) {
-	ss.PutBool(true).PutVal(connections())
+	ss.PutBool(true).PutVal(ss.sc.dbms.Connections())
 }
 
 func connections() *SuObject {
@@ -518,6 +518,7 @@ func cmdCursor(ss *serverSession) {
 }
 
 func cmdCursors(ss *serverSession) {
+	ss.sc.dbms.Cursors() // panics if not authorized
 	ss.PutBool(true).PutInt(len(ss.cursors))
 }
 
@@ -697,7 +698,7 @@ func cmdKeys(ss *serverSession) {
 
 func cmdKill(ss *serverSession) {
 	sessionId := ss.GetStr()
-	n := kill(sessionId)
+	n := ss.sc.dbms.Kill(sessionId)
 	ss.PutBool(true).PutInt(n)
 }
 
@@ -860,7 +861,7 @@ func cmdTimestamp(ss *serverSession) {
 }
 
 func cmdToken(ss *serverSession) {
-	tok := Token()
+	tok := ss.sc.dbms.Token()
 	ss.PutBool(true).PutStr(tok)
 }
 
